@@ -22,6 +22,10 @@
 //	      ResetPollerEvent, between its look at the write list and its epoll_ctl (forced through the
 //	      shim's CtlHook); if the poller holds the conn mutex there, the call runs right after it
 //	O close
+//	O deadline far|0                           SetWriteDeadline one hour ahead / zero time (clear)
+//	O fire                                     the write deadline expires now (only if a timer is set on an
+//	                                           open conn: the deadline is moved to "now" and the timer's
+//	                                           closeWithError(errWriteTimeout) is awaited)
 //	Q                                          observation
 //
 // kernel answers k: w<n> (accept n bytes, capped at the request) | eagain | eintr | epipe; an
@@ -30,7 +34,7 @@
 // result lines:
 //
 //	R [ow=<n:err;…>|n=<n> err=<e>|deliv=<bits> cb=<n:err>] closed= left= wl=[b<unsent>/<len>,f<off>+<remain>,…]
-//	  wadded= reg= ctl=[<epoll_ctl calls since the previous line>] wire=<len>:<fnv> onclose=
+//	  wadded= reg= ctl=[<epoll_ctl calls since the previous line>] wire=<len>:<fnv> onclose= wtimer=
 //	hung        the event loop did not come back (flush spinning); the rest of the case is `dead`
 //
 // Direct oracles (implementation only):
@@ -41,6 +45,7 @@
 //	c04-quiescent-unarmed  open, registered, non-empty queue, EPOLLOUT not armed
 //	c04-progress           EPOLLOUT delivered with kernel room did not reduce the backlog
 //	c04-et-lost-edge       ET: flush gave up on a backlog without the kernel having refused a write
+//	c01-stale-wtimer       write deadline still set after Write/Writev/flush left nothing to be written
 //	c17-bound              left > maxWB; left != Σ unsent buffer bytes; drained but left != 0
 //	c17-fits               a call that fits (or no bound) was not accepted / overflow reported wrongly
 //	c17-overflow           a call that exceeds the bound did not fail with ErrOverflow + close
@@ -160,6 +165,7 @@ type simItem struct {
 	rem       int // file
 }
 type sim struct {
+	wtimer bool
 	closed bool
 	items  []simItem
 	left   int
@@ -177,6 +183,11 @@ func (s *sim) enqueue(n int) {
 		return
 	}
 	s.items = append(s.items, simItem{dlen: n})
+}
+func (s *sim) timerFire() {
+	if s.wtimer && !s.closed {
+		s.kill()
+	}
 }
 func (s *sim) over(n int) bool { return s.maxwb > 0 && s.left+n > s.maxwb }
 func (s *sim) kill()           { s.closed = true; s.items = nil }
@@ -220,6 +231,9 @@ func (s *sim) write(sizes []int, k string) {
 		}
 		s.enqueue(b - n)
 		n = 0
+	}
+	if len(s.items) == 0 {
+		s.wtimer = false
 	}
 }
 func (s *sim) rng(off, ln int) int {
@@ -303,6 +317,9 @@ func (s *sim) flushOne(k string) bool { // false = flush stops
 		if h.off == h.dlen {
 			s.items = s.items[1:]
 		}
+	}
+	if len(s.items) == 0 {
+		s.wtimer = false
 	}
 	return true
 }
@@ -539,6 +556,10 @@ func gen(g *lp.Gen) {
 			dial = " dial=1"
 		}
 		g.P("C typ=%s mode=%s maxwb=%d fsize=%d%s openwrite=%s", typ, mode, s.maxwb, s.fsize, dial, open)
+		if g.Chance(1, 5) {
+			g.P("O deadline far")
+			s.wtimer = true
+		}
 		nops := 2 + g.Intn(12)
 		if g.Chance(1, 8) {
 			nops = 12 + g.Intn(14)
@@ -577,6 +598,18 @@ func gen(g *lp.Gen) {
 			case r < 96:
 				s.kill()
 				g.P("O close")
+			case r < 98:
+				switch g.Intn(8) {
+				case 0:
+					g.P("O fire")
+					s.timerFire()
+				case 1, 2:
+					g.P("O deadline 0")
+					s.wtimer = false
+				default:
+					g.P("O deadline far")
+					s.wtimer = !s.closed
+				}
 			default:
 				g.P("Q")
 			}
@@ -615,6 +648,7 @@ type caseState struct {
 	key          strings.Builder
 	fromOpen     bool // a backlog was created inside the open callback
 	dial         bool // registered through addDialer
+	hadBacklog   bool // the previous observation saw an open conn with a non-empty queue
 	lines        []string // the op lines of the case so far (for the isolated re-run)
 	zeroWrites   int64
 	spin         int32
@@ -788,6 +822,10 @@ func (cs *caseState) doCall(cl *call) string {
 			cs.tolerate = in
 		}
 	}
+	// --- write deadline (C16 tie): a Write/Writev that leaves nothing to be written clears it
+	if cerr == nil && cl.kind != "sendfile" && !post.Closed && len(post.Items) == 0 && post.WTimer {
+		orc("c01-stale-wtimer", "%s returned (%d, nil) with an empty queue but the write deadline timer is still set", cl.kind, n)
+	}
 	// --- C17: fits => accepted; overflow only when it does not fit, and then fatal
 	held := len(in)
 	if cl.kind == "sendfile" {
@@ -938,8 +976,14 @@ func (cs *caseState) state() string {
 		q = 3
 	}
 	fmt.Fprintf(&cs.key, "q%d%v;", q, st.Closed)
-	return fmt.Sprintf("closed=%d left=%d wl=[%s] wadded=%d reg=%d ctl=[%s] wire=%d:%d onclose=%d",
-		b(st.Closed), st.Left, strings.Join(items, ","), b(st.IsWAdded), b(reg), strings.Join(ctl, ","), len(wire), cs.wireHash, atomic.LoadInt64(&cs.closes))
+	// C16 tie: a drained, open connection must not keep a write deadline behind (checked where the
+	// queue was seen non-empty before: set by the callers through cs.hadBacklog)
+	if cs.hadBacklog && !st.Closed && len(st.Items) == 0 && st.WTimer {
+		orc("c01-stale-wtimer", "queue drained on an open conn but the write deadline timer is still set")
+	}
+	cs.hadBacklog = !st.Closed && len(st.Items) > 0
+	return fmt.Sprintf("closed=%d left=%d wl=[%s] wadded=%d reg=%d ctl=[%s] wire=%d:%d onclose=%d wtimer=%d",
+		b(st.Closed), st.Left, strings.Join(items, ","), b(st.IsWAdded), b(reg), strings.Join(ctl, ","), len(wire), cs.wireHash, atomic.LoadInt64(&cs.closes), b(st.WTimer))
 }
 
 // Oracle reports are buffered and printed after the result line of the op they belong to (the
@@ -1216,6 +1260,28 @@ func exec(e *lp.Exec) {
 		case f[0] == "O" && len(f) >= 2 && f[1] == "close":
 			cur.c.Close()
 			fmt.Fprintf(&cur.key, "close,")
+			res("R %s", cur.state())
+		case f[0] == "O" && len(f) == 3 && f[1] == "deadline" && (f[2] == "far" || f[2] == "0"):
+			if f[2] == "far" {
+				_ = cur.c.SetWriteDeadline(time.Now().Add(time.Hour))
+			} else {
+				_ = cur.c.SetWriteDeadline(time.Time{})
+			}
+			cur.hadBacklog = false // an explicit (re)arming on an idle conn is legitimate
+			fmt.Fprintf(&cur.key, "dl%s,", f[2])
+			e.Count("deadline", f[2])
+			res("R %s", cur.state())
+		case f[0] == "O" && len(f) == 2 && f[1] == "fire":
+			if st := cur.c.VerifWriteState(false); !st.Closed && st.WTimer {
+				_ = cur.c.SetWriteDeadline(time.Now().Add(time.Millisecond))
+				for i := 0; i < 600000 && !cur.c.VerifWriteState(false).Closed; i++ {
+					time.Sleep(100 * time.Microsecond)
+				}
+				e.Count("deadline", "fired")
+			} else {
+				e.Count("deadline", "fire-without-timer")
+			}
+			fmt.Fprintf(&cur.key, "fire,")
 			res("R %s", cur.state())
 		case f[0] == "O" && len(f) >= 3 && f[1] == "event":
 			cs := cur
